@@ -486,7 +486,7 @@ func C11Drive(rec *Rec, e C11Entry) int {
 		case <-time.After(time.Second):
 			// all remaining workers flagged and nothing left to hand out?
 			mu.Lock()
-			alive := 0
+			alive, nw := 0, len(workers)
 			for _, w := range workers {
 				if !w.flagged.Load() && !w.exited.Load() {
 					alive++
@@ -495,6 +495,10 @@ func C11Drive(rec *Rec, e C11Entry) int {
 			mu.Unlock()
 			if alive == 0 && (int(next.Load()) >= e.N || only >= 0) {
 				done = true
+			} else if alive == 0 && nw >= e.Workers+8 {
+				// every worker and every replacement is stuck in the code under test: give up on the rest
+				done = true
+				rec.Note(fmt.Sprintf("%s: run abandoned after %d executed cases, %d goroutines stuck in the entry point", e.Name, executed.Load(), nw))
 			}
 		}
 	}
@@ -502,8 +506,14 @@ func C11Drive(rec *Rec, e C11Entry) int {
 	wdDone.Wait()
 
 	// isolated reproduction of the inputs on which the watchdog fired
-	for _, s := range suspects {
+	for k, s := range suspects {
 		if s.c == nil {
+			continue
+		}
+		if k >= 2 {
+			// each isolated reproduction may cost 60 s: the first two decide, the rest are listed
+			rec.Inconclusive("further input on which the watchdog fired (not re-run alone: two reproductions were already attempted)",
+				map[string]interface{}{"entry": e.Name, "case": s.idx, "input": C11Witness(s.c.In)})
 			continue
 		}
 		c := s.c
